@@ -559,6 +559,8 @@ def check_C04(work, tier, seed):
     b = build(work)
     sc = gen_c04(seed, tier)
     lines = conform(work, b, "C04", seed, sc.text(), out)
+    # spec -> impl: every transition of the tweak machine's state graph on the real objects
+    lines += conform(work, b, "C04", seed, graph_tweak_scenarios(work, seed, out).text(), out, tag="-graph")
     note_distinct(out, lines, ("o", "tweak", "len", "ctr"))
     out.samples = sample_events([x for x in lines if "tweak" in x])
     return out, dict(
@@ -642,6 +644,8 @@ def check_C03(work, tier, seed):
         run_mc(work, out, "MC_Mode", neg, expect_fail=True)
     b = build(work)
     lines = backend_sweep(work, b, "C03", seed, lambda cf: gen_c03(seed, tier, cf), out)
+    # spec -> impl: every transition of the mode machine's state graph on the real objects
+    lines += conform(work, b, "C03", seed, graph_mode_scenarios(work, seed, lambda k: 2, out).text(), out, tag="-graph")
     note_distinct(out, lines, ("o", "n", "tweak", "mode"))
     out.samples = sample_events([x for x in lines if "swap" in x or "par_" in x])
     return out, dict(
@@ -1215,6 +1219,9 @@ def check_C14(work, tier, seed):
     life_mc(work, out, "C14", tier)
     b = build(work)
     lines = backend_sweep(work, b, "C14", seed, lambda cf: gen_c14(seed, tier, cf), out)
+    # spec -> impl: one call sequence per transition of the abstract CTR machine
+    lines += backend_sweep(work, b, "C14", seed + 77, lambda cf: graph_ctr_scenarios(work, seed, cf, Outcome()), out)
+    graph_ctr_scenarios(work, seed, lambda k: 2, out, kinds=())      # records graph size in the evidence
     note_distinct(out, lines, ("o", "len", "n", "nr", "ret", "key_null", "tweak_null", "ctr_null", "in_null", "outnull"))
     out.samples = sample_events([x for x in lines if '"ret":0' in x], maxlen=240)
     return out, dict(
@@ -2449,3 +2456,170 @@ def check_C08(work, tier, seed):
 
 
 CHECKS.update({"C08": check_C08})
+
+
+# ------------------------------------------------------------------ spec -> impl: scenarios from TLC state graphs
+
+import re as _re
+
+
+def _label(l):
+    m = _re.match(r"(\w+)(?:\((.*)\))?$", l)
+    name, args = m.group(1), (m.group(2) or "")
+    return name, [a.strip().strip('"') for a in _re.findall(r'<<[^>]*>>|"[^"]*"|[^,]+', args)] if args else []
+
+
+def graph_ctr_scenarios(work, seed, cap_for, out, kinds=("s128", "s64", "mantis")):
+    """every edge of Gen_Ctr's state graph, concretised for each kind"""
+    init, edges, nn = dump_graph(work, "Gen_Ctr", "Gen_Ctr")
+    seqs = edge_cover(init, edges)
+    out.notes.append("Gen_Ctr graph: %d states, %d edges, %d edge-covering call sequences per kind" % (nn, len(edges), len(seqs)))
+    out.mc.append({"model": "Gen_Ctr (state graph dumped for scenario generation)", "states": nn, "transitions": len(edges),
+                   "ok": True, "violated": None, "expected_to_fail": False, "actions": {}})
+    sc = Sc(seed + 77)
+    for kind in kinds:
+        bs = BS[kind]
+        tl = 8 if kind == "mantis" else bs
+        for si, seq in enumerate(seqs):
+            if si % 40 == 0:
+                pass
+            sc.reset("g-ctr-%s-%d" % (kind, si))
+            live, j = False, 0
+            for lab in seq:
+                name, a = _label(lab)
+                if name == "DoInit":
+                    fail = a[0] == "TRUE"
+                    sc.ctr_init(kind, 0, cap=cap_for(kind), fail=1 if fail else None,
+                                prefill=sc.rng.choice([None, 0, 0xA5]) if not live else None)
+                    live, j = (not fail), 0
+                elif name == "DoCleanup":
+                    sc.ctr_cleanup(kind, 0)
+                    live = False
+                elif name in ("DoSetKey", "DoSetTweakedKey"):
+                    cls = a[0]
+                    tweaked = name == "DoSetTweakedKey"
+                    setk = sc.ctr_set_tweaked_key if (tweaked and kind != "mantis") else sc.ctr_set_key
+                    kw = {"rounds": 6} if kind == "mantis" or not tweaked else {}
+                    if kind != "mantis" and not tweaked:
+                        kw = {}
+                    if cls == "valid":
+                        setk(kind, 0, valid_key(sc, kind, tweaked), **kw)
+                        if tweaked and kind == "mantis":
+                            pass
+                        if live:
+                            j = 0
+                    elif cls == "null":
+                        setk(kind, 0, None, bs, **kw)
+                    elif cls == "short":
+                        setk(kind, 0, sc.rb(bs - 1 if kind != "mantis" else 15), **kw)
+                    elif cls == "long":
+                        setk(kind, 0, sc.rb((2 if tweaked else 3) * bs + 1 if kind != "mantis" else 17), **kw)
+                    else:   # badrounds
+                        if kind == "mantis":
+                            sc.ctr_set_key(kind, 0, sc.rb(16), rounds=sc.rng.choice((0, 4, 9, 100)))
+                        else:
+                            setk(kind, 0, b"", 0)
+                elif name == "DoSetTweak":
+                    cls = a[0]
+                    if cls == "full" or (cls == "short" and kind == "mantis"):
+                        sc.ctr_set_tweak(kind, 0, sc.rb_nz(tl)); j = 0 if live else j
+                    elif cls == "short":
+                        sc.ctr_set_tweak(kind, 0, sc.rb_nz(sc.rng.randrange(1, bs))); j = 0 if live else j
+                    elif cls == "null":
+                        sc.ctr_set_tweak(kind, 0, None, tl); j = 0 if live else j
+                    elif cls == "zero_len":
+                        sc.ctr_set_tweak(kind, 0, sc.rb(tl), 0)
+                    else:
+                        sc.ctr_set_tweak(kind, 0, sc.rb(tl + 1), tl + 1)
+                elif name == "DoSetCounter":
+                    cls = a[0]
+                    if cls == "full":
+                        sc.ctr_set_counter(kind, 0, sc.rb(bs)); j = 0
+                    elif cls == "short":
+                        sc.ctr_set_counter(kind, 0, sc.rb(sc.rng.randrange(1, bs))); j = 0
+                    elif cls == "empty":
+                        sc.ctr_set_counter(kind, 0, b"", 0); j = 0
+                    elif cls == "null":
+                        sc.ctr_set_counter(kind, 0, None, sc.rng.randrange(0, bs + 1)); j = 0
+                    else:
+                        sc.ctr_set_counter(kind, 0, sc.rb(bs + 1), bs + 1)
+                elif name == "DoEncrypt":
+                    cls = a[0]
+                    if cls == "zero":
+                        sc.ctr_encrypt(kind, 0, b"")
+                    elif cls in ("part", "long_part"):
+                        base = 0 if cls == "part" else 17 * bs
+                        n = base + sc.rng.choice([x for x in range(1, bs) if (j + x) % bs != 0])
+                        sc.ctr_encrypt(kind, 0, sc.rb(n)); j = (j + n) % bs if live else j
+                    elif cls in ("align", "long_align"):
+                        base = 0 if cls == "align" else 16 * bs
+                        n = base + ((bs - j) % bs or bs)
+                        sc.ctr_encrypt(kind, 0, sc.rb(n)); j = 0 if live else j
+                    elif cls == "null_in":
+                        sc.ctr_encrypt(kind, 0, None, n=5)
+                    else:
+                        sc.ctr_encrypt(kind, 0, sc.rb(5), outnull=1)
+            # probe: what the object does next shows the effect of the last transition
+            sc.ctr_encrypt(kind, 0, sc.rb(bs + 2))
+            sc.ctr_cleanup(kind, 0)
+            sc.quiesce()
+    return sc
+
+
+def graph_mode_scenarios(work, seed, cap_for, out):
+    init, edges, nn = dump_graph(work, "MC_Mode", "Gen_Mode")
+    seqs = edge_cover(init, edges)
+    out.notes.append("MC_Mode graph: %d states, %d edges, %d edge-covering call sequences" % (nn, len(edges), len(seqs)))
+    sc = Sc(seed + 78)
+    for si, seq in enumerate(seqs):
+        if si % 10 == 0:
+            sc.reset("g-mode-%d" % si)
+            sc.par_init("mantis", 0, cap=cap_for("mantis"))
+        keys = {"ka": sc.rb(16), "kb": sc.rb(16)}
+        tws = {"zero": None, "t1": sc.rb(8), "t2": sc.rb(8)}
+        rounds = 5 + si % 4
+        for lab in seq:
+            name, a = _label(lab)
+            if name == "SetKey":
+                sc.mk_set_key(0, keys[a[0]], rounds, 1 if a[1] == "enc" else 0)
+                sc.par_set_key("mantis", 0, keys[a[0]], rounds=rounds, mode=1 if a[1] == "enc" else 0)
+            elif name == "SetTweak":
+                sc.mk_set_tweak(0, tws[a[0]])
+            else:
+                sc.mk_swap(0)
+                sc.par_swap(0)
+        blk = sc.rb(8)
+        sc.mk_crypt(0, blk)
+        sc.mk_crypt(0, blk, tweak=sc.rb(8))
+        sc.par_crypt("mantis", 0, sc.rb(24), tweak=sc.rb(24))
+    return sc
+
+
+def graph_tweak_scenarios(work, seed, out):
+    init, edges, nn = dump_graph(work, "MC_Tweak", "Gen_Tweak")
+    seqs = edge_cover(init, edges)
+    out.notes.append("MC_Tweak graph: %d states, %d edges, %d edge-covering call sequences per kind" % (nn, len(edges), len(seqs)))
+    sc = Sc(seed + 79)
+    for kind in ("s128", "s64"):
+        bs = BS[kind]
+        h = bs // 2
+        for si, seq in enumerate(seqs):
+            if si % 8 == 0:
+                sc.reset("g-tweak-%s-%d" % (kind, si))
+            half = {0: bytes(h), 1: sc.rb_nz(h)}
+            for lab in seq:
+                name, a = _label(lab)
+                if name == "SetTweakedKey":
+                    sc.ks_set_tweaked_key(kind, 0, sc.rb(bs * (1 + si % 2)))
+                elif name == "SetTweak":
+                    vec = [int(x) for x in _re.findall(r"\d+", a[0])]
+                    ln = int(a[1])
+                    tw = b"".join(half[v] for v in vec)[:ln * h]
+                    sc.ks_set_tweak(kind, 0, tw)
+                elif name == "SetTweakNull":
+                    sc.ks_set_tweak(kind, 0, None, int(a[0]) * h)
+                else:
+                    ln = int(a[0])
+                    sc.ks_set_tweak(kind, 0, sc.rb(bs + 1), 0 if ln == 0 else bs + 1)
+            sc.ks_crypt(True, kind, 0, sc.rb(bs), t=1)
+    return sc
